@@ -65,6 +65,15 @@ def insertStr (x : String) : List String → List String
   | [] => [x]
   | y :: r => if x < y then x :: y :: r else y :: insertStr x r
 
+def handleTe (nm n : String) : String :=
+  match findTable nm, n.toNat? with
+  | some t, some k =>
+    if k < 2 ^ t.width then
+      let v := fromInt t k
+      s!"{showVariant t v} {optNat (toInt t v)}"
+    else "bad-op"
+  | _, _ => "bad-op"
+
 def handle (ws : List String) : String :=
   match ws with
   | ["tables"] =>
@@ -78,6 +87,9 @@ def handle (ws : List String) : String :=
         s!"{showVariant t v} {optNat (toInt t v)}"
       else "bad-op"
     | _, _ => "bad-op"
+  -- the number as a decoder that carries it reports it: the model of those decoders is the bare conversion
+  | ["via", "mrtstate", n] => if (n.toNat?.getD 65536) < 65536 then handleTe "bgp.fsm.state_machine.State" n else "bad-op"
+  | ["via", "captype", n] => if (n.toNat?.getD 256) < 256 then handleTe "bgp.message.open.CapabilityType" n else "bad-op"
   | ["afisafi", a, s] =>
     match a.toNat?, s.toNat? with
     | some a, some s =>
